@@ -88,6 +88,18 @@ reg("C13", "Hypothesis scenarios x exhaustive single-fault positions (LD_PRELOAD
     "Single faults only; injected at libc wrappers / allocation call sites of project objects; sanitizer runtime symbolizer disabled during "
     "injection (its own pipe I/O would be hit); premature EOF is not a fault (shorter inputs are legitimate).", "DESIGN.md 4/C13")
 
+reg("C11", "Hypothesis trees x readdir permutation shim (LD_PRELOAD) -> gensquashfs", "exploration",
+    "metamorphic: image bytes identical under every injected permutation of readdir() results",
+    "Materialised trees (with multiply-linked files) are packed by gensquashfs --pack-dir / a glob line while src/readdir_shim.c returns each "
+    "directory's entries reversed, sorted and in seeded random orders; sha256(image) must be identical. A difference confined to inode "
+    "numbering of multiply-linked files is the recorded known finding; anything else is a violation.",
+    "Order is permuted at libc readdir(); plain build.", "DESIGN.md 4/C11")
+reg("C14", "Hypothesis inputs x SIGKILL before every output-file write (LD_PRELOAD shim) -> readers", "fault_enumeration",
+    "crash-point enumeration: every prefix of the output write sequence is offered to all readers and an independent parser",
+    "gensquashfs / tar2sqfs are killed immediately before the k-th write/pwrite/ftruncate on the output file for every k (fresh file and -f "
+    "over a valid image); rdsquashfs -l/-d, sqfs2tar (ASan) and the independent parser must either all reject the leftover file or all read "
+    "exactly the complete image.", "Models process death with ordered page cache, not power loss; single kill per run.", "DESIGN.md 4/C14")
+
 NOT_YET = {}
 
 ALL = ["C%02d" % i for i in range(1, 20)]
